@@ -7,7 +7,7 @@ use std::{
 use crate::date_utils::now;
 use argon2::{self, Config, Variant, Version};
 use base64::{engine::general_purpose::URL_SAFE_NO_PAD as enc64, Engine as _};
-use ed25519_dalek::{SignatureError, Signer, Verifier};
+use ed25519_dalek::{SignatureError, Signer};
 use rand::{rngs::OsRng, RngCore};
 use rcgen::{CertificateParams, KeyPair, SanType};
 use serde::{Deserialize, Serialize};
@@ -212,7 +212,7 @@ impl VerifyingKey for Ed2519VerifyingKey {
         let sign: [u8; 64] = signature.try_into().unwrap();
 
         let sig = ed25519_dalek::Signature::from_bytes(&sign);
-        self.veriying_key.verify(data, &sig)?;
+        self.veriying_key.verify_strict(data, &sig)?;
         Ok(())
     }
 }
